@@ -4,6 +4,7 @@ import J5V.Props.C12
 #print axioms J5V.Props.C12.C12_array_equiv
 #print axioms J5V.Props.C12.C12_int_inclusivity
 #print axioms J5V.Props.C12.C12_int_out_of_range_rejected
+#print axioms J5V.Props.C12.C12_enum_rejected_iff_inadmissible
 #print axioms J5V.Props.C12.C12_int_reversed_counterexample
 #print axioms J5V.Props.C12.C12_unique_message_counterexample
 #print axioms J5V.Props.C12.C12_optional_presence_counterexample
